@@ -1235,7 +1235,7 @@ fn real_main() {
     let t_start = std::time::Instant::now();
 
     // building blocks: corpus first, then generated contents
-    let n_direct = args.budget(10_000, 100_000) as usize;
+    let n_direct = args.budget(10_000, 60_000) as usize;
     for i in 0..corpus.len() + n_direct {
         let src = if i < corpus.len() { corpus[i].clone() } else { gen_content(&mut r) };
         do_stats(&mut rep, &src);
@@ -1259,11 +1259,11 @@ fn real_main() {
         let keep = (args.seed % 3) as usize;
         confs = confs.into_iter().enumerate().filter(|(i, _)| i % 3 == keep).map(|(_, c)| c).collect();
     }
-    let n_random = args.budget(5, 60) as usize;
+    let n_random = args.budget(5, 30) as usize;
     for _ in 0..n_random {
         confs.push(gen_conf(&mut r));
     }
-    let per_conf = args.budget(40, 60) as usize;
+    let per_conf = args.budget(40, 50) as usize;
     let die_cases = args.budget(3, 12) as usize;
     for (ci, conf) in confs.iter().enumerate() {
         let mut contents: Vec<Vec<u8>> = Vec::new();
